@@ -415,6 +415,8 @@ func evalGen(r *rand.Rand, tier string, n int) []*wire.Case {
 	add("d-fn-args", "let a = 1; let b = 2; fn second(b, a) { return a; } print(second(a, b)); print(second(b, a));",
 		"fn gcd(a, b) { if b == 0 { return a; } return gcd(b, a - (a / b) * b); } print(gcd(12, 18)); print(gcd(48, 36));",
 		"let x = 5; fn three(p, x, q) { return p * 100 + x * 10 + q; } print(three(x, x + 1, x + 2)); print(x);")
+	add("d-map-field-order", "fn p(x) { print(x); return x; } let m = [zz = p(3), b = p(2), a = p(1), b = p(4)]; print(len(m));",
+		"let m = [k2 = rand(), k1 = rand()]; print(1);", "let m = [b = 1 / 0, a = nope];")
 	add("d-scope", "let x = 1; { let x = 2; print(x); x = 3; print(x); } print(x);", "let x = 1; if 1 { x = 5; let y = 2; } print(x); print(y);",
 		"let x = 1; fn f() { return x + 1; } { let x = 10; print(f()); } print(f());", "fn g(x) { x = x + 1; return x; } let x = 5; print(g(x)); print(x);")
 	add("d-loops", "let i = 0; while i < 5 { i = i + 1; if i == 2 { continue; } if i == 4 { break; } print(i); }",
